@@ -40,6 +40,9 @@ type RateInfo struct {
 	Exempt    bool
 	HasValues bool
 	Qualified bool // some value needs tags or extensions
+	// Exts lists the distinct extension sets that select a value of this rate,
+	// when extensions (and never tags) are all that qualifies its values.
+	Exts []map[string]string
 }
 
 var (
@@ -95,10 +98,25 @@ func Regimes() (map[string]*RegimeInfo, []string) {
 				ci := CategoryInfo{Code: c.Code, Retained: c.Retained}
 				for _, r := range c.Rates {
 					x := RateInfo{Key: r.Key, Exempt: r.Exempt, HasValues: len(r.Values) > 0}
+					tagged := false
+					seenExt := map[string]bool{}
 					for _, v := range r.Values {
 						if len(v.Tags) > 0 || len(v.Ext) > 0 {
 							x.Qualified = true
 						}
+						if len(v.Tags) > 0 {
+							tagged = true
+						}
+						if len(v.Ext) > 0 {
+							k, _ := json.Marshal(v.Ext)
+							if !seenExt[string(k)] {
+								seenExt[string(k)] = true
+								x.Exts = append(x.Exts, v.Ext)
+							}
+						}
+					}
+					if tagged {
+						x.Exts = nil
 					}
 					ci.Rates = append(ci.Rates, x)
 				}
